@@ -64,7 +64,7 @@ VERIF = Path(__file__).resolve().parent.parent
 LEAN_DIR = VERIF / "lean"
 
 # properties for which the stage is active (enable only after multi-seed quick + one thorough run are green)
-GENTIE_READY: List[str] = ["C17", "C20", "C03", "C04", "C16"]
+GENTIE_READY: List[str] = ["C17", "C20", "C03", "C04", "C16", "C14", "C05"]
 
 
 
@@ -482,6 +482,8 @@ class _Types:
         self.p2l = p2l
         self.named = spec.get("types", {})
         self.make = {n: eval(s["py_make"]) for n, s in self.named.items() if "py_make" in s}  # pylint: disable=eval-used
+        # how the fields of a struct are read back from the real object (default: attribute of the same name)
+        self.get = {n: {f: eval(src) for f, src in s.get("py_get", {}).items()} for n, s in self.named.items()}  # pylint: disable=eval-used
 
     def parse(self, s):
         return self.p2l.parse_type(s, self.named)
@@ -522,6 +524,14 @@ class _Types:
             fs = [(n, self.parse(ty)) for n, ty in self.named[t[1]]["fields"]]
             kinds = self.named[t[1]].get("gen", {})
             return self.make[t[1]](*[self.gen(ft, rng, kinds.get(n)) for n, ft in fs])
+        if k in ("xy", "shape2d"):
+            from odc.geo.types import Shape2d, ixy_, xy_
+
+            et = ("int",) if k == "shape2d" else t[1]
+            a, b = self.gen(et, rng), self.gen(et, rng)
+            if k == "shape2d":
+                return Shape2d(x=abs(a), y=abs(b))
+            return ixy_(a, b) if et == ("int",) else xy_(a, b)
         if k == "intorslice":
             if rng.random() < 0.3:
                 return self.gen(("int",), rng)
@@ -537,6 +547,14 @@ class _Types:
     def gen_kind(self, kind: str, rng: random.Random):
         if kind == "none":
             return None
+        if kind == "smallidx":
+            from odc.geo.types import ixy_
+
+            return ixy_(rng.randint(-40, 40), rng.randint(-40, 40))
+        if kind == "smalltriple":
+            return (rng.randint(-1, 4), rng.randint(-1, 6), rng.randint(-1, 6))
+        if kind == "pow2int":
+            return rng.choice([1, 2, 4, 8, 16, 256])
         if kind == "posint":
             return rng.choice([1, 1, 2, 3, 4, 5, 7, 8, 16, 100, 2**33])
         if kind == "nonneg":
@@ -602,6 +620,15 @@ class _Types:
                 v, toks = self.dec(self.parse(ft), toks)
                 vals.append(v)
             return self.make[t[1]](*vals), toks
+        if k in ("xy", "shape2d"):
+            from odc.geo.types import Shape2d, ixy_, xy_
+
+            et = ("int",) if k == "shape2d" else t[1]
+            a, toks = self.dec(et, toks)
+            b, toks = self.dec(et, toks)
+            if k == "shape2d":
+                return Shape2d(x=a, y=b), toks
+            return (ixy_(a, b) if et == ("int",) else xy_(a, b)), toks
         if k == "intorslice":
             if toks[0] == "i":
                 return int(toks[1]), toks[2:]
@@ -650,8 +677,12 @@ class _Types:
         if k == "struct":
             out = []
             for n, ty in self.named[t[1]]["fields"]:
-                out += self.enc(self.parse(ty), getattr(v, n))
+                g = self.get.get(t[1], {}).get(n)
+                out += self.enc(self.parse(ty), g(v) if g else getattr(v, n))
             return out
+        if k in ("xy", "shape2d"):
+            et = ("int",) if k == "shape2d" else t[1]
+            return self.enc(et, v.x) + self.enc(et, v.y)
         if k == "intorpair":
             if isinstance(v, tuple):
                 return ["p"] + self.enc(("int",), v[0]) + self.enc(("int",), v[1])
